@@ -15,7 +15,7 @@ Proof.
   pose proof (vi_granted_live _ _ I) as Hc.
   pose proof (λ n k, vsr_live_fwd _ _ _ _ n k Hv) as Hlf.
   destruct Hv; unfold st_go in *; simpl in *; intros x t' sid0 n0 k0 z0 Ql Qa Qp; lk; simpl in *; try (by eapply Hc).
-  all: try (exfalso; try site_inv; subst; try destruct (sc_noclear _); try destruct (lt_pos _); naive_solver).
+  all: try (exfalso; try site_inv; subst; try destruct (sc_noclear _); try destruct (lt_pos _); ds_next_cases; naive_solver).
   all: try (destruct (Hlf _ _ (Hc _ _ _ _ _ _ Ql Qa Qp)) as [?|(tid0 & t0 & pc0 & E & Ht0 & Hs0 & Ht0' & _)]; [done|];
             exfalso; injection E as <-;
             destruct (rel_site_owner _ _ _ _ _ _ _ _ _ _ _ _ I Ht0 Hs0 Ql Qa) as [[?|[? ?]]|[? ?]]; destruct Qp; congruence).
@@ -48,7 +48,7 @@ Proof.
   intros I Ht Ho Hp Hx Hax Hpx.
   destruct (vi_ds_todo _ _ I _ _ _ c Ht Ho) as [(y & ty & Hy & Hay & _) _]; [rewrite Hp; simpl; by left|].
   destruct (acq_unique _ _ _ _ _ _ _ _ _ _ _ _ _ I Hx Hy Hax Hay) as (-> & -> & -> & _).
-  destruct (vi_ds_ended _ _ I _ _ _ Ht Ho) as [_ [?|[?|Hev]]]; try congruence.
+  pose proof (vi_ds_ended _ _ I _ _ _ Ht Ho) as Hev.
   eapply ended_ctx_cancelled; eauto. by destruct (acquirer_is_acq _ _ _ _ _ Hax) as (_ & _ & ?).
 Qed.
 
@@ -76,7 +76,7 @@ Proof.
   pose proof (vi_tmadd_live _ _ I) as Hc.
   pose proof (λ n k, vsr_live_fwd _ _ _ _ n k Hv) as Hlf.
   destruct Hv; unfold st_go in *; simpl in *; intros x t' sid0 n0 k0 z0 Ql Qa Qp; lk; simpl in *; try (by eapply Hc).
-  all: try (exfalso; try site_inv; subst; try destruct (sc_noclear _); try destruct (lt_pos _); congruence).
+  all: try (exfalso; try site_inv; subst; try destruct (sc_noclear _); try destruct (lt_pos _); ds_next_cases; congruence).
   all: try (destruct (Hc _ _ _ _ _ _ Ql Qa Qp) as [Hlv|?]; [|by right];
             destruct (Hlf _ _ Hlv) as [?|(tid0 & t0 & pc0 & E & Ht0 & Hs0 & Ht0' & _)]; [by left|]; injection E as <-;
             destruct (rel_site_tmadd _ _ _ _ _ _ _ _ _ _ _ I Ht0 Hs0 Ql Qa Qp) as (sidx & c' & rest & Hox & Hpx & <- & <-);
@@ -96,7 +96,7 @@ Proof.
   pose proof (vi_unl_notimer _ _ I) as Hc.
   destruct Hv; unfold st_go in *; simpl in *; intros x t' n0 k0 Ql Qo Qp; lk; simpl in *; try (by eapply Hc).
   Unshelve.
-  all: try (exfalso; try site_inv; subst; try destruct (sc_noclear _); try destruct (lt_pos _); try destruct Hop; congruence).
+  all: try (exfalso; try site_inv; subst; try destruct (sc_noclear _); try destruct (lt_pos _); ds_next_cases; try destruct Hop; congruence).
   - subst op. done.
   - destruct (connend_cancel_ok sid x0) as (Ho & Hp & _). rewrite Ho in Qo. rewrite Hp in Qp. by eapply Hc.
   - (* another call arms a lease: not for this key, which was delivered *)
@@ -133,7 +133,7 @@ Proof.
     exfalso. destruct Hpp as [Hpp|[->|[_ Hpp]]]; [congruence| |congruence].
     destruct Qa as (Qa1 & _).
     inversion Hv; subst; unfold st_go in *; simpl in *; simplify_eq; try (rewrite lookup_insert in Ql; simplify_eq; simpl in *).
-    all: try (try site_inv; subst; try destruct (sc_noclear _); try destruct (lt_pos _); try destruct Hop; congruence).
+    all: try (try site_inv; subst; try destruct (sc_noclear _); try destruct (lt_pos _); ds_next_cases; try destruct Hop; congruence).
     destruct Hsite; simplify_eq. by rewrite lookup_delete in Qa1.
 Qed.
 
@@ -150,15 +150,15 @@ Proof.
   { destruct (decide (st_pc t' = st_pc y)) as [Hsame|Hdiff]; [left; by rewrite <- Hsame|].
     destruct Hpp as [Hpp|[->|[_ Hpp]]]; [congruence| |by rewrite Hpp in Qp].
     inversion Hv; subst; unfold st_go in *; simpl in *; simplify_eq; try (rewrite lookup_insert in Ql; simplify_eq; simpl in * ).
-    all: try (exfalso; try site_inv; subst; try destruct (sc_noclear _); try destruct (lt_pos _); try destruct Hop; simpl in *; congruence).
-    - left. destruct Hsite as [| |? ? ? ? Hpy|]; try congruence. rewrite Hpy. simpl in *. auto.
-    - left. destruct Hsite as [| |? ? ? ? Hpy|]; try congruence. rewrite Hpy. simpl in *. auto.
-    - left. destruct Hsite as [| |? ? ? ? Hpy]; try congruence. rewrite Hpy. simpl in *. auto.
+    all: try (exfalso; try site_inv; subst; try destruct (sc_noclear _); try destruct (lt_pos _); ds_next_cases; try destruct Hop; simpl in *; congruence).
+    - left. destruct Hsite as [| |? ? ? ? Hpy|]; try congruence. rewrite Hpy. simpl in *. right. by apply ds_pending_next.
+    - left. destruct Hsite as [| |? ? ? ? Hpy|]; try congruence. rewrite Hpy. simpl in *. right. by apply ds_pending_next.
+    - left. destruct Hsite as [| |? ? ? ? Hpy]; try congruence. rewrite Hpy. simpl in *. right. by apply ds_pending_next.
     - left. destruct Hsite as [| |? ? ? ? Hpy]; try congruence. rewrite Hpy. simpl in *. destruct Qp as [->|?]; [left|by right].
     - left. destruct Hsite as [| |? ? ? ? Hpy]; try congruence. rewrite Hpy. simpl in *. destruct Qp as [->|?]; [left|by right].
-    - left. destruct Hsite as [| |? ? ? ? Hpy]; try congruence. rewrite Hpy. simpl in *. by right.
-    - exfalso. destruct Hmv; try destruct (sc_noclear cfg); simpl in *; try done; by apply elem_of_nil in Qp.
-    - right. destruct (sc_noclear cfg); simpl in *; [done|]. rewrite Hoy in Hop. simplify_eq. exists l. done. }
+    - left. destruct Hsite as [| |? ? ? ? Hpy]; try congruence. rewrite Hpy. simpl in *. right. by apply ds_pending_next.
+    - apply ds_pending_next in Qp. destruct Hpc as [Hpc|[_ ->]]; [|by apply elem_of_nil in Qp].
+      right. rewrite Hoy in Hop. simplify_eq. exists l. done. }
   - (* the hold was pending before *)
     destruct (vi_ds_todo _ _ I _ _ _ c Hy Hoy Hold) as [(z & tz & Hz & Haz & Hpz) Hno].
     destruct (past_add_fwd _ _ _ _ _ _ _ _ Hf Hz Haz Hpz) as (tz' & Hz' & Haz' & Hpz' & _). split; [eauto|].
@@ -190,6 +190,7 @@ Proof.
   inversion Hv; subst; unfold st_go in *; simpl in *; simplify_eq; auto.
   all: try (exfalso; destruct Hs; congruence).
   all: try (exfalso; destruct Hs; destruct Hpc; congruence).
+  all: try (exfalso; destruct Hs; destruct Hpc as [Hpc|[Hpc _]]; congruence).
   all: try (exfalso; destruct Hs; site_inv; congruence).
   - right. destruct (rel_site_fun _ _ _ _ _ _ _ _ Hs Hsite) as [-> ->].
     intros Hl. eapply slive_insert in Hl; [|simpl; reflexivity]. destruct Hl as [[_ Hl]|[? _]]; [|done]. simpl in Hl.
@@ -273,7 +274,7 @@ Proof.
     destruct Hpp as [Hpp|[->|[_ Hpp]]]; [rewrite Hpp in Qp; tauto| |destruct Qp; congruence].
     inversion Hv; subst; unfold st_go in *; simpl in *; simplify_eq; try tauto; try (rewrite lookup_insert in Ql; simplify_eq; simpl in * ).
     all: try (exfalso; destruct Qp; congruence).
-    all: try (exfalso; try site_inv; subst; try destruct (lt_pos _); try destruct (sc_noclear _); destruct Qp; simpl in *; congruence).
+    all: try (exfalso; try site_inv; subst; try destruct (lt_pos _); ds_next_cases; try destruct (sc_noclear _); destruct Qp; simpl in *; congruence).
     all: try (exfalso; destruct Hop; congruence).
     all: try (exfalso; destruct Hsite; first [congruence | tauto]).
     + (* the manager released the hold *)
